@@ -19,4 +19,5 @@ import (
 	_ "verifharness/props/c17"
 	_ "verifharness/props/c18"
 	_ "verifharness/props/c19"
+	_ "verifharness/props/c20"
 )
